@@ -172,6 +172,41 @@ R2.update({
  "C19-8": ("/tmp/seeds6/J/C19-2", "C19", "plain file's mtime newer than its .gz sibling's (by >= 1 ns): 'stale precompressed file' guard refuses the substitution", []),
 })
 
+# seventh round: three changes per sub-agent (two properties each), same brief as round six plus
+# "state kept between calls" and "values near the system clock" as examples; everything used so far as "avoid"
+R2.update({
+ "C01-6": ("/tmp/seeds7/A/1", "C01", "multipart GET whose part stream yields an EMPTY chunk before that part's last byte: 'don't forward zero-length frames' guard makes the empty chunk fall into the part-finished arm, rest of the part skipped, clean end short of Content-Length", ["C02", "C06", "C12"]),
+ "C12-9": ("/tmp/seeds7/A/2", "C12", "multipart GET where a part stream fails with Err, then one more poll: fuse state computed as len << (1 | 1) (= send trailer) with remaining already 0: end flag true, then the trailer frame / underflow", ["C20", "C07"]),
+ "C12-10": ("/tmp/seeds7/A/3", "C12", "200 / single 206 whose entity stream yields Err and then goes on with data, consumer polls after the error: remaining zeroed on Err, body claims end-of-stream, then delivers a bogus too-long error", ["C20", "C07"]),
+ "C02-6": ("/tmp/seeds7/B/1", "C02", "multipart whose entity stream returns Pending (cur.take() not put back on Pending): stream dropped, part re-fetched from its first byte (bytes twice, or livelock when every fresh stream pends)", ["C06", "C01"]),
+ "C06-10": ("/tmp/seeds7/B/2", "C06", "a range that overlaps TWO or more ranges already accepted (0-99,50-149,75-199; a triple duplicate): silently ignored 'against DoS', part missing from the multipart body", ["C03"]),
+ "C02-7": ("/tmp/seeds7/B/3", "C02", "Entity::Data that is a two-segment Buf: shared buf_len() helper = chunk().len() in ExactLenStream, size_hint and MultipartStream: all bytes forwarded, then a bogus too-short error", ["C01", "C12"]),
+ "C03-10": ("/tmp/seeds7/C/1", "C03", "entity whose own headers total >= ~80..150 bytes (repeated in every part) and a multi-range request with ranges + 80 each under L/2: multipart-vs-200 decided on the EXACT multipart length, complete 200 although multipart is mandatory", ["C06"]),
+ "C05-7": ("/tmp/seeds7/C/2", "C05", "a FAILED If-Range together with two or more satisfiable ranges on an entity large enough for multipart: the failure is checked on the 416 and single-range arms only, multipart 206 served", ["C03"]),
+ "C03-11": ("/tmp/seeds7/C/3", "C03", "a first-last spec with first >= L and an UNPARSEABLE last (2^64, non-digits): early `continue` before the last-byte-pos is validated, header no longer ignored (416 / 206 of the other spec instead of 200)", ["C13"]),
+ "C04-9": ("/tmp/seeds7/D/1", "C04", "entity modification time within the FIRST second of the epoch (seconds == 0): whole seconds held in Option<NonZeroU64>, date conditions skipped although Last-Modified is sent (200 instead of 304)", ["C14"]),
+ "C14-7": ("/tmp/seeds7/D/2", "C14", "two requests on one thread less than 1 s apart that straddle a second boundary, the second entity's mtime in the future or 'just now': Date taken from a per-thread cache refreshed by age, Last-Modified clamped against the real clock, Last-Modified > Date", []),
+ "C14-8": ("/tmp/seeds7/D/3", "C14", "entity whose ETag is the EMPTY tag (\"\" or W/\"\") echoed in If-None-Match / If-Match, or an empty tag as the last list element: bounds check assumes a tag has >= 3 bytes, list treated as corrupt (200 instead of 304, 400 for If-Match)", ["C04"]),
+ "C07-5": ("/tmp/seeds7/E/1", "C07", "entity of length 0 (200 with Content-Length 0): fast path returns an empty body without asking the entity for a stream, so a stream that errors at once / delivers an extra byte / an extra chunk is never noticed", ["C01", "C02"]),
+ "C20-7": ("/tmp/seeds7/E/2", "C20", "abort on a GZIP (or raw, with buffered bytes) writer while the consumer is polled between abort's two steps (error published, then encoder/writer dropped): reader leaves a finished Ok state instead of ReaderFused, the drop queues bytes behind the delivered error", ["C11", "C10"]),
+ "C20-8": ("/tmp/seeds7/E/3", "C20", "two cooperating edits: abort only forwards the error (writer stays usable) + the reader's Err arm leaves a finished Ok state; sequence abort, poll (Err), NO further poll, then drop(writer) or write+flush, then poll: data after the error, then a clean end", ["C11"]),
+ "C08-6": ("/tmp/seeds7/F/1", "C08", ">= 130 chunks queued before the consumer polls, writer then dropped or idle: 'cooperative yield' after 128 back-to-back chunks returns Pending without waking itself", ["C10"]),
+ "C11-9": ("/tmp/seeds7/F/2", "C11", "chunk size >= 8 (4096, 65536), body dropped, then a flush with 1..chunk/8 bytes pending: small-flush copy-out clears the staging buffer before the dead-state branch looks at it, flush returns Ok, bytes discarded, writer never told", []),
+ "C08-7": ("/tmp/seeds7/F/3", "C08", "chunk size 65536 only: an explicit flush of a partial chunk of <= chunk-16384 bytes polled while the stream is live: shrink_to_fit path returns before restoring the state from ReaderFused, body ends early, later data lost", ["C11"]),
+ "C17-8": ("/tmp/seeds7/G/1", "C17", "two or more Accept-Encoding header LINES whose first line alone gives another verdict than the joined list (identity + gzip): streaming_body joins the lines, should_gzip looks at the first only", ["C15"]),
+ "C09-8": ("/tmp/seeds7/G/2", "C09", "gzip, chunk size a power of two in 256..16384 (default 4096), a flush first (header out of the staging buffer), then >= ~58 KiB incompressible data: bulk-write fast path stages an exact-multiple tail without pushing it, next write returns Ok(0), WriteZero, truncated member", ["C08"]),
+ "C17-9": ("/tmp/seeds7/G/3", "C17", "builder: with_gzip_level(0) and THEN with_chunk_size(..) on a gzip-preferring request: with_chunk_size rebuilds from defaults, level silently back to 6, Content-Encoding: gzip although level 0", []),
+ "C15-8": ("/tmp/seeds7/H/1", "C15", "streaming_body + HEAD + gzip negotiated + level > 0: the writer is built and dropped inside build(), its drop writes the 20-byte empty gzip member into the HEAD body (headers identical to GET)", ["C17"]),
+ "C15-9": ("/tmp/seeds7/H/2", "C15", "HEAD multi-range (multipart zone, no If-Range) on an entity whose add_headers repeats a header NAME: HEAD sizes the header block with keys_len() (distinct names), Content-Length 4 bytes short per extra line per part", ["C06"]),
+ "C10-11": ("/tmp/seeds7/H/3", "C10", "consumer parked first, then a payload that is an exact multiple of the chunk size, then flush / wait and nothing else: auto hand-over of a full chunk skips the wake ('coalescing'), the following flush has an empty buffer and wakes nobody", ["C08"]),
+ "C16-8": ("/tmp/seeds7/I/1", "C16", "an UNWEIGHTED gzip / identity / * AFTER an element whose weight is not 1 (br;q=0, gzip): default weight hoisted out of the loop, the unweighted element inherits the previous element's weight", ["C17"]),
+ "C13-7": ("/tmp/seeds7/I/2", "C13", "GET/HEAD with 65 or more satisfiable ranges on an entity large enough for multipart: 'hardening' answers 431, a status outside the documented set", ["C03", "C06"]),
+ "C13-8": ("/tmp/seeds7/I/3", "C13", "multi-range request whose estimate sum(len_i) + 80n equals L EXACTLY (L=162 with 0-0,1-1; L=2^32 ...): '1 % saving' heuristic divides by the saving, divide by zero panic", ["C03"]),
+ "C19-9": ("/tmp/seeds7/J/1", "C19", "auto_gzip + gzip preferred + `..` as the LAST segment (.., sub/.., a/..): validation runs on the buffer with .gz appended (`...gz` passes), the fallback strips .gz and opens `..` unvalidated", []),
+ "C18-9": ("/tmp/seeds7/J/2", "C18", "same inode, length grows by k bytes AND mtime moves back by exactly 31*k seconds (or +k s with -31k ns): fields folded into one 64-bit value with h*31+v, adjacent fields cancel, identical ETag", []),
+ "C18-10": ("/tmp/seeds7/J/3", "C18", "mtime BEFORE the epoch with a non-zero sub-second part (epoch - 1 ns, -0.25 s): mtime rebuilt from raw st_mtime/st_mtime_nsec subtracts the forward-counting nanoseconds, last_modified() wrong", []),
+})
+
 def sh(cmd, **kw):
     return subprocess.run(cmd, shell=True, capture_output=True, text=True, **kw)
 
